@@ -44,6 +44,7 @@ THEOREMS = [
     "SleapVerif.C08.run_instances",
     "SleapVerif.C08.assigned_peak_in_row",
     "SleapVerif.C08.min_peaks_code_rule",
+    "SleapVerif.C08.grouping_call_independent",
     "SleapVerif.C08.exLsaOK",
     "SleapVerif.C08.ex2LsaOK",
     "SleapVerif.C08.final_classes_eq_components",
@@ -546,6 +547,46 @@ def nt_parts(res, n_tensors, n_samples):
         return ("malformed", f"{type(e).__name__}: {str(e)[:120]}")
 
 
+def snap(tensors):
+    """bit-exact snapshot of (nested) tensors, for input-purity checks"""
+    out = []
+    for t in tensors:
+        comps = list(t.unbind()) if getattr(t, "is_nested", False) else [t]
+        out.append([(tuple(c.shape), str(c.dtype), c.detach().cpu().numpy().tobytes()) for c in comps])
+    return out
+
+
+INPUT_NAMES = ["peaks", "peak_vals", "peak_channel_inds", "match_edge_inds", "match_src_peak_inds",
+               "match_dst_peak_inds", "match_line_scores"]
+
+
+def small_of(case, b):
+    return {"n": case["n"], "edges": case["edges"], "sample": case["samples"][b], "b": b, "pafs": case["pafs"][b],
+            "params": {k: case[k] for k in ("stride", "n_points", "min_line_scores", "min_instance_peaks",
+                                            "max_edge_length_ratio", "dist_penalty_weight")}}
+
+
+def inst_agree(t, out, s, n, scale):
+    """model `inst` section vs implementation arrays: NaN pattern, coordinates and values exact, score to tolerance"""
+    ni = int(t[0])
+    inst, pvals, iscores = out
+    if not (getattr(inst, "shape", None) == (ni, n, 2) and pvals.shape == (ni, n) and iscores.shape == (ni,)):
+        return False
+    for r_ in range(ni):
+        row = t[1 + r_ * (n + 1): 1 + (r_ + 1) * (n + 1)]
+        for node in range(n):
+            g = int(row[node])
+            x, y, pv = float(inst[r_][node][0]), float(inst[r_][node][1]), float(pvals[r_][node])
+            if g < 0:
+                if not (x != x and y != y and pv != pv):
+                    return False
+            elif not (x == s["peaks"][g][0] and y == s["peaks"][g][1] and pv == s["vals"][g]):
+                return False
+        if abs(float(Fraction(row[n])) - float(iscores[r_])) > 1e-5 * scale:
+            return False
+    return True
+
+
 def coincident(case, s):
     chs, pts = s["channels"], s["peaks"]
     for (u, v) in case["edges"]:
@@ -633,8 +674,15 @@ def impl_case(chk, impl, case, fixed):
         info["matches"] = [[(int(i), int(j), F(sc)) for kk, i, j, sc in zip(mk, ms_, md, msc) if kk == k]
                            for k in range(nE)]
         impl.rec_assign.clear()
+        ins = [peaks, vals, chs, *m[1]]
+        before = snap(ins)
         g = call(lambda: scorer.group_instances(peaks, vals, chs, *m[1]))
         info["assign_rec"] = list(impl.rec_assign)
+        after = snap(ins)
+        if after != before:
+            bad = [INPUT_NAMES[i] for i in range(len(before)) if before[i] != after[i]]
+            chk.fail(f"PAFScorer.group_instances modifies its input tensor(s) {bad} in place (so grouping the same "
+                     "matches again gives another answer)", small_of(case, b), {"modified": bad}, ["input_mutated"])
         gp = nt_parts(g, 3, 1) if g[0] == "ok" else None
         if g[0] == "raise" or gp[0] != "ok":
             info["raise"] = ("group_instances",) + (g[1:] if g[0] == "raise" else ("MalformedOutput", gp[1]))
@@ -642,6 +690,40 @@ def impl_case(chk, impl, case, fixed):
             continue
         info["out"] = tuple(x[0] for x in gp[1])
         per.append(info)
+        # ---- call history: the SAME scorer object and the SAME match tensors grouped again with other
+        #      min_line_scores / min_instance_peaks (strict -> loose, loose -> strict); every answer must be
+        #      the answer of that call alone
+        finite = sorted({float(sc) for mk_ in info["matches"] for _, _, sc in mk_ if sc is not None})
+        explicit = case.get("history") if B == 1 else None
+        if explicit or (finite and chk.rng.random() < 0.6):
+            if explicit:
+                history = [tuple(h) for h in explicit]
+            else:
+                lo = chk.rng.choice([-4.0, finite[0] - 1.0, finite[0]])
+                hi = chk.rng.choice(finite + [finite[-1] + 0.5])
+                mid = chk.rng.choice(finite)
+                thrs = chk.rng.choice([[hi, lo], [lo, hi], [hi, lo, mid], [lo, hi, lo], [hi, mid, lo]])
+                history = [(float(np.float32(t_)), chk.rng.choice([case["min_instance_peaks"], 0, 2, 0.6, 3]))
+                           for t_ in thrs]
+            calls = []
+            for ci, (thr, mp2) in enumerate(history):
+                before = snap(ins)
+                if ci % 2 == 0:
+                    scorer.min_line_scores, scorer.min_instance_peaks = thr, mp2
+                    gh = call(lambda: scorer.group_instances(peaks, vals, chs, *m[1]))
+                else:
+                    gh = call(lambda: impl.pg.group_instances_batch(
+                        peaks, vals, chs, *m[1], scorer.n_nodes, scorer.sorted_edge_inds, scorer.edge_types, mp2, thr))
+                after = snap(ins)
+                ghp = nt_parts(gh, 3, 1) if gh[0] == "ok" else None
+                res = ("raise",) + tuple(gh[1:]) if gh[0] == "raise" else (
+                    ("malformed", ghp[1]) if ghp[0] != "ok" else ("ok", tuple(x[0] for x in ghp[1])))
+                calls.append({"thr": thr, "mip": mp2, "res": res, "mutated": [INPUT_NAMES[i] for i in range(len(before))
+                                                                               if before[i] != after[i]],
+                              "line": sample_line(fixed, n, edges, thr, mp2, s["channels"], mats, answers)})
+            scorer.min_line_scores = 0.25 if case["min_line_scores"] == "pick" else case["min_line_scores"]
+            scorer.min_instance_peaks = case["min_instance_peaks"]
+            info["history"] = calls
     # ---- the whole batch through the batch functions and through predict (the glue)
     any_raise = any(p["raise"] for p in per)
     batch_case = {"case": case}
@@ -671,7 +753,21 @@ def impl_case(chk, impl, case, fixed):
                                  "of that frame's peaks", batch_case,
                                  {"frame": b, "batch": str(got), "alone": str(per[b]["matches"])}, ["batch_glue"])
     impl.rec.clear()
+    before = snap(tb)
     full = call(lambda: scorer.predict(*tb))
+    if snap(tb) != before:
+        chk.fail("PAFScorer.predict modifies its input tensors in place", batch_case, None, ["input_mutated"])
+    full2 = call(lambda: scorer.predict(*tb))
+    if full[0] == "ok" and full2[0] == "ok":
+        p1, p2 = nt_parts(("ok", tuple(full[1])[:3]), 3, B), nt_parts(("ok", tuple(full2[1])[:3]), 3, B)
+        if p1[0] == "ok" and (p2[0] != "ok" or any(
+                p1[1][j][b_].shape != p2[1][j][b_].shape or p1[1][j][b_].tobytes() != p2[1][j][b_].tobytes()
+                for j in range(3) for b_ in range(B))):
+            chk.fail("a second PAFScorer.predict on the same inputs does not return what the first returned",
+                     batch_case, None, ["call_history"])
+    elif full[0] != full2[0]:
+        chk.fail(f"a second PAFScorer.predict on the same inputs ends differently: {full[0]} then {full2[0]}",
+                 batch_case, str(full2[1:])[:200], ["call_history"])
     if full[0] == "raise":
         known = (full[1] == "ValueError" and "infeasible" in full[2]
                  and any(coincident(case, s_) for s_ in case["samples"]))
@@ -710,11 +806,58 @@ def check_cases(chk, impl, tagged_cases, fixed):
         r = impl_case(chk, impl, case, fixed)
         if r is not None:
             recs.append((tag, r))
-    flat = [l for _, r in recs for l in r["lines"] if l is not None]
+    flat = []
+    for _, r in recs:
+        flat += [l for l in r["lines"] if l is not None]
+        flat += [c["line"] for p_ in r["per"] for c in p_.get("history", [])]
     outs = iter(run_driver("C08.lean", flat))
     for tag, r in recs:
         mod = {i: parse_sections(next(outs)) for i, l in enumerate(r["lines"]) if l is not None}
+        for p_ in r["per"]:
+            for c in p_.get("history", []):
+                c["model"] = parse_sections(next(outs))
         compare_case(chk, impl, r, mod, fixed, tag)
+        compare_histories(chk, r)
+
+
+def compare_histories(chk, rec):
+    """every call of a history (same scorer, same match tensors, other thresholds) vs the model's answer for
+    that call alone; on a difference the property oracle decides and the history is the failing input"""
+    import numpy as np
+    case = rec["case"]
+    n = case["n"]
+    for b, info in enumerate(rec["per"]):
+        calls = info.get("history")
+        if not calls:
+            continue
+        s = case["samples"][b]
+        hist = [[c["thr"], c["mip"]] for c in calls]
+        base = small_of(case, b)
+        hcase = {"case": {"n": n, "edges": case["edges"], "stride": case["stride"], "pafs": [case["pafs"][b]],
+                          "samples": [s], "history": hist, **base["params"]},
+                 "history (min_line_scores, min_instance_peaks) applied to the same match tensors": hist}
+        scale = 1 + sum(abs(float(sc)) for mk_ in info["matches"] for _, _, sc in mk_ if sc is not None)
+        for ci, c in enumerate(calls):
+            chk.case(None, tags=["history_call"])
+            if c["mutated"]:
+                chk.fail(f"call {ci} of the history modifies its input tensor(s) {c['mutated']} in place",
+                         {**hcase, "call": ci}, None, ["input_mutated"])
+            M = c["model"]
+            if c["res"][0] != "ok":
+                if M["status"] == "ok":
+                    chk.fail(f"call {ci} of the history {hist} on the same match tensors: {c['res'][:3]}",
+                             {**hcase, "call": ci}, str(c["res"])[:300], ["call_history"])
+                continue
+            if M["status"] != "ok" or not inst_agree(M["inst"], c["res"][1], s, n, scale):
+                case2 = dict(case, min_instance_peaks=c["mip"])
+                why = oracle_sample(case2, s, info["mats"], info["matches"],
+                                    Fraction(float(np.float32(c["thr"]))), c["res"][1])
+                if why:
+                    chk.fail(f"call {ci} of the history {hist} (min_line_scores, min_instance_peaks) on the same "
+                             "match tensors: " + "; ".join(why[:2]), {**hcase, "call": ci},
+                             {"inst": c["res"][1][0].tolist()}, ["call_history"])
+                chk.disagree("group_instances call inside a history == groupSample for that call alone",
+                             {**hcase, "call": ci}, [x.tolist() for x in c["res"][1]], " ".join(M.get("inst", [M["status"]])))
 
 
 def check_case(chk, impl, case, fixed, tag="gen"):
@@ -967,7 +1110,8 @@ def main(chk: Check):
             cases.append(("pattern_" + pat, gen_case(rng, pattern=pat)))
     check_cases(chk, impl, cases, fixed)
     # report a whole-batch failure first (only the first three failing inputs get a replay file)
-    chk.failing.sort(key=lambda f: 0 if "batch_glue" in f["signatures"] else 1)
+    chk.failing.sort(key=lambda f: 0 if "call_history" in f["signatures"] and "history" in str(f["what"])
+                     else 1 if "batch_glue" in f["signatures"] else 2 if "input_mutated" in f["signatures"] else 3)
     check_assign_cases(chk, impl, [gen_assign_case(rng) for _ in range(chk.n(3000, 20000))])
 
 
